@@ -186,33 +186,10 @@ class Prover:
                     out.append(Con(coeffs, const))
         return out
 
-    def same_form(self, atom):
-        return self.form_prefix is not None and atom.rsplit('.', 1)[0] == self.form_prefix
+    def extend_vars(self, vars_):
+        return vars_
 
-    def branch(self, st):
-        return {'todo': list(st['todo']), 'active': set(st['active']), 'unfolded': set(st['unfolded']), 'cross': st['cross']}
-
-    def search(self, cons, st, depth):
-        """True if every way of resolving the pending disjunctions gives an infeasible system"""
-        self.cases += 1
-        if self.cases > MAX_CASES:
-            raise _Budget()
-        if fm_infeasible(cons + self.sign_facts(cons)):
-            return True
-        if st['todo']:
-            st2 = self.branch(st)
-            name, t = st2['todo'].pop()
-            st2['active'].add(name)
-            alts = self.term_cases(name, t, st2)
-            for alt in alts:
-                if not self.search(cons + alt, self.branch(st2), depth):
-                    return False
-            return True
-        if depth >= MAX_DEPTH:
-            return False
-        vars_ = set()
-        for c in cons:
-            vars_.update(c.coeffs)
+    def pick_candidates(self, vars_, st):
         # unfold only lines of the same form as the goal (worksheet-local reasoning), in discovery order
         cands = [v for v in self.order if v in vars_ and v not in st['unfolded']]
         for v in sorted(vars_):
@@ -224,6 +201,42 @@ class Prover:
             for v in sorted(vars_):
                 if v.startswith('v:') and v in self.defs and v not in st['unfolded'] and ':*' not in v:
                     cands.append(v)
+        return cands
+
+    def same_form(self, atom):
+        return self.form_prefix is not None and atom.rsplit('.', 1)[0] == self.form_prefix
+
+    def branch(self, st):
+        return {'todo': list(st['todo']), 'active': set(st['active']), 'unfolded': set(st['unfolded']), 'cross': st['cross']}
+
+    def search(self, cons, st, depth):
+        """True if every way of resolving the pending disjunctions gives an infeasible system"""
+        self.cases += 1
+        if self.cases > getattr(self, 'max_cases', MAX_CASES):
+            raise _Budget()
+        t_end = getattr(self, 't_end', None)
+        if t_end is not None and (self.cases & 7) == 0:
+            import time
+            if time.time() > t_end:
+                raise _Budget()
+        if fm_infeasible(cons + self.sign_facts(cons)):
+            return True
+        if st['todo']:
+            st2 = self.branch(st)
+            name, t = st2['todo'].pop()
+            st2['active'].add(name)
+            alts = self.term_cases(name, t, st2)
+            for alt in alts:
+                if not self.search(cons + alt, self.branch(st2), depth):
+                    return False
+            return True
+        if depth >= getattr(self, 'max_depth', MAX_DEPTH):
+            return False
+        vars_ = set()
+        for c in cons:
+            vars_.update(c.coeffs)
+        vars_ = self.extend_vars(vars_)
+        cands = self.pick_candidates(vars_, st)
         for v in cands:
             st2 = self.branch(st)
             st2['unfolded'].add(v)
@@ -257,6 +270,16 @@ class Prover:
                         alt.append(self.ge(fj, fi, st) if k == 'min' else self.ge(fi, fj, st))
                 alts.append(alt)
             return alts
+        if k == 'ftax':
+            return [[Con({name: 1}, 0)]]          # a tax is never negative (C07)
+        if k in ('ceil', 'floor', 'int'):
+            f = self.thaw(t[1])
+            one = Lin(1)
+            if k == 'ceil':           # f <= x <= f + 1
+                return [[self.ge(x, f, st), self.ge(f.add(one), x, st)]]
+            if k == 'floor':          # f - 1 <= x <= f
+                return [[self.ge(f, x, st), self.ge(x, f.add(one, -1), st)]]
+            return [[self.ge(f.add(one), x, st), self.ge(x, f.add(one, -1), st)]]
         if k == 'sumn':
             body = self.thaw(t[2])
             if body.const >= 0 and all(c >= 0 and tt[0] == 'a' and (tt[1].startswith('i:') or tt[1] in self.nn or tt[1] in self.zero) for tt, c in body.terms.items()):
